@@ -59,9 +59,12 @@ type Node struct {
 	VLen  int    `json:"vlen"` // len(value) in bytes
 	PLen  int    `json:"plen"` // number of position cells
 	Raw   string `json:"-"`
-	RawA  string `json:"raw"` // the value itself (2-byte rune -> placeholder)
+	RawA  string `json:"raw,omitempty"` // the value itself (2-byte rune -> placeholder); only with WithRaw
 	P     diags.PositionRanges `json:"-"`
 }
+
+// WithRaw: include the raw value of every node in the projection (C19 compares values exactly).
+var WithRaw bool
 
 type Rule struct {
 	Type    string `json:"type"` // alerting | recording | invalid
@@ -124,7 +127,9 @@ func project(field string, yn *parser.YamlNode, lines []string) Node {
 	n.Val = Abstract(Collapse(yn.Value))
 	n.Rb = Abstract(Collapse(rb))
 	n.Out = out
-	n.RawA = Abstract(yn.Value)
+	if WithRaw {
+		n.RawA = Abstract(yn.Value)
+	}
 	n.VLen = len(yn.Value)
 	n.PLen = yn.Pos.Len()
 	return n
